@@ -912,7 +912,9 @@ XStmt(st, s) ==
                                       !.inp = IF Has(st, "Redirs") THEN s0.inp ELSE @,
                                       !.eof = IF Has(st, "Redirs") THEN s0.eof ELSE @,
                                       \* the code turns the status 0 of an exit or return passing through into 1
-                                      !.st = IF neg /\ r0.ctl = "n" THEN (IF @ = 0 THEN 1 ELSE 0)
+                                      \* (break and continue are commands that succeed: `! break` leaves the loop with status 1;
+                                      \*  the status of an exit or return is not inverted)
+                                      !.st = IF neg /\ r0.ctl \in {"n", "b", "c"} THEN (IF @ = 0 THEN 1 ELSE 0)
                                              ELSE IF neg /\ r0.ctl \in {"x", "r"} /\ D(s, "Dev_NegatedExit") /\ @ = 0 THEN 1 ELSE @,
                                       !.trig = (IF lostNeg THEN @ \cup {"Dev_ErrexitNegated"} ELSE @) \cup
                                                (IF neg /\ r0.ctl \in {"x", "r"} /\ r0.st = 0 /\ D(s, "Dev_NegatedExit") THEN {"Dev_NegatedExit"} ELSE {})]
